@@ -16,12 +16,13 @@ func main() {
 		Rule: "generated programs dominated by metatable shapes: __index/__newindex through tables and functions, arithmetic/concat handlers with the object on the left, right or both sides, " +
 			"__eq/__lt/__le (with and without __le), __call/__unm/__tostring/__metatable, rawget/rawset/rawequal; handlers log their operands through emit; traces compared with the reference evaluator; " +
 			"non-trivial = at least 5 emitted rows or an error outcome; distinct by Gallina term",
-		Modes:     modes(f),
-		NQuick:    400,
-		NThorough: 2500,
-		Corpus:    append(corpus, corpusW5...),
-		Extra:     metaExtra,
-		VM:        true,
+		Modes:       modes(f),
+		NQuick:      400,
+		NThorough:   2500,
+		Corpus:      append(corpus, corpusW5...),
+		Extra:       metaExtra,
+		ReplayExtra: extraReplay,
+		VM:          true,
 	})
 }
 
